@@ -24,7 +24,8 @@ def cli_adds(rep, b, ch, ldns, ks):
                         if chainmod.LDN_1601 <= l + mult * k <= (caldrv.TAIL_FIRST - 1 if kind == "ldn" else chainmod.LDN_LAST)]
                 if kind == "ymcw0":
                     # every Sunday next to the sampled days
-                    rows = [(l + 7 - r[4], ch.row(l + 7 - r[4])) for l, r in rows if chainmod.LDN_1601 <= l + 7 - r[4] + mult * k <= chainmod.LDN_LAST - 7]
+                    rows = [(l + 7 - r[4], ch.row(l + 7 - r[4])) for l, r in rows
+                            if l + 7 - r[4] <= chainmod.LDN_LAST - 7 and chainmod.LDN_1601 <= l + 7 - r[4] + mult * k <= chainmod.LDN_LAST - 7]
                 inp = "".join(spell(kind, r) + "\n" for _, r in rows)
                 rc, lines, err = cc.tool_lines(tool, ["-i", cc.INFMT[nota], "%+d%s" % (k, unit)], inp)
                 nrun += 1
